@@ -125,7 +125,9 @@ def r3_least_squares(ctx, rule="R3"):
             continue
         n += 1
         none = lookup(p.decided, ("cmp", "is", ("param", "damping"), NONE))
-        tag = ("undamped" if none else "damped") + ("," + ("under" if p.conds and p.conds[0][1] else "over"))
+        first = p.conds[0] if p.conds else None
+        under = first is not None and first[1] and first[0][0] == "cmp" and first[0][1] in (">", "<") and first[0][2][0] == "sub" and first[0][3][0] == "sub"
+        tag = ("undamped" if none else "damped") + ("," + ("under" if under else "over"))
         sc = [e.data[0] for e in p.events if e.kind == "call" and callee(e.data[0]) == "sklearn.preprocessing.StandardScaler"]
         ft = [e.data[0] for e in p.events if e.kind == "call" and callee(e.data[0]) == ".fit_transform"]
         rg = [e.data[0] for e in p.events if e.kind == "call" and callee(e.data[0]) in ("sklearn.linear_model.LinearRegression", "sklearn.linear_model.Ridge")]
